@@ -16,6 +16,9 @@ Model of sender authorisation:
 * `internal/table/file.go`  `readFile` (well-formed files), `Lookup`/`LookupMulti`, `Init`, `reload` → `fileLookup`, `fileTable`,
   `FileState.init`, `FileState.step` (the time-stamp guards of `reload` are environment: the harness gives every
   edit a newer, old-enough stamp)
+* `internal/table/chain.go`  `(*Chain).LookupMulti` → `stepKeys` (the inner loop over the current keys), `chainLookup`
+  (the `STEP:` loop), `chainTable`; `(*Chain).Init` only collects the `step` / `optional_step` tables in order
+* `internal/auth/sasl.go`  `(*SASLAuth).CreateSASL` (PLAIN), `AuthPlain`, `usernameForAuth` (without `auth_map`) → `saslPlain`
 * `internal/endpoint/smtp/submission.go`  `submissionPrepare`          → `submissionWrites` (frame: which fields it writes)
 
 Strings are code-point lists (`MaddyVerif.Address.Str`); `address.Split` is the model already
@@ -458,6 +461,53 @@ def FileState.run (s : FileState) (ops : List FileOp) : FileState := ops.foldl F
 
 /-- the table the check consults -/
 def FileState.table (s : FileState) : Table := fileTable s.loaded
+
+/-! ### `table.chain` (internal/table/chain.go)
+
+`LookupMulti` starts with `result = [key]`; every step looks up every current value (`LookupMulti`
+of a MultiTable step, else `Lookup`: exactly `tableEntries`) and appends what it gets to a FRESH
+slice, which becomes `result`.  A value without a mapping (`len(val) == 0` / `!ok`) ends the step
+at once: an `optional_step` is left out (`continue STEP`: `result` stays what it was), a `step` makes the
+whole lookup answer nothing.  A failing lookup fails the whole lookup.  `Chain` implements
+`MultiTable`, so the check and `AuthorizeEmailUse` use `LookupMulti`. -/
+
+/-- the loop over the current keys of one step: `none` = a key without a mapping was met (before
+any failing lookup); `some r` = the concatenation of the answers, in order. -/
+def stepKeys (t : Table) : List Str → Except Unit (Option (List Str))
+  | [] => .ok (some [])
+  | k :: ks =>
+    match tableEntries t k with
+    | .error e => .error e
+    | .ok [] => .ok none
+    | .ok (v :: vs) =>
+      match stepKeys t ks with
+      | .error e => .error e
+      | .ok none => .ok none
+      | .ok (some r) => .ok (some ((v :: vs) ++ r))
+
+/-- the `STEP:` loop; a step is (optional?, table) -/
+def chainLookup : List (Bool × Table) → List Str → Except Unit (List Str)
+  | [], keys => .ok keys
+  | (opt, t) :: rest, keys =>
+    match stepKeys t keys with
+    | .error e => .error e
+    | .ok none => if opt then chainLookup rest keys else .ok []
+    | .ok (some r) => chainLookup rest r
+
+def chainTable (steps : List (Bool × Table)) : Table := .multi fun k => chainLookup steps [k]
+
+/-! ### SASL PLAIN on the endpoint (internal/auth/sasl.go), as far as the identity is concerned
+
+The client sends an authorization identity (may be empty), a login name and a password.  The
+identity defaults to the login name and must then be byte-wise EQUAL to it; the password is verified
+for the normalised login name (`auth_map_normalize`; `none` = the normaliser refuses it); on success
+the session's `AuthUser` is the identity.  `verify name password` is the credential store. -/
+def saslPlain (norm : Str → Option Str) (verify : Str → Str → Bool) (authzid authcid password : Str) : Option Str :=
+  let identity := if authzid.isEmpty then authcid else authzid
+  if identity != authcid then none else
+  match norm authcid with
+  | none => none
+  | some name => if verify name password then some identity else none
 
 /-! ### `submissionPrepare` (internal/endpoint/smtp/submission.go), as far as the author is concerned
 
